@@ -172,9 +172,19 @@ def run_check(prop, fn, tier, meta, repo=None, preloaded=None, quiet=False):
     seed = int(os.environ.get("VERIF_SEED", "0") or 0)
     undecided = None
     try:
-        fn(ctx)
-        import widths
-        widths.check(ctx, prop)
+        try:
+            fn(ctx)
+        finally:
+            # the crate-wide zero-count rules do not depend on the property's anchors: they are decided (and a positive
+            # identification reported) even when the property's own rules stop at a lost anchor
+            import widths
+            try:
+                widths.check(ctx, prop)
+            except Undecided:
+                pass
+        if tier == "thorough":
+            import poscontrol
+            poscontrol.run_widths(ctx, prop)
         if tier == "thorough" and (repo is None or os.path.abspath(repo) == os.path.abspath(REPO)) and not os.environ.get("VERIF_NO_SELFTEST"):
             selftest(ctx, prop)
     except Undecided as u:
